@@ -225,6 +225,13 @@ func NameFamilies(thorough bool) []Family {
 			lens = append(lens, name, name+".")
 		}
 	}
+	// names that shrink under IDNA conversion: ACE labels of basic code points only ("xn--a-" is "a"), so that
+	// the raw text is far longer than 253 bytes (or has far more than 253 characters) while the converted name is short
+	for _, n := range []int{20, 30, 31, 32, 36, 37, 50, 60} {
+		for _, lab := range []string{"xn--a-.", "xn--ab-.", "XN--A-.", "xn--a-.b."} {
+			lens = append(lens, Rep(lab, n)+"com", Rep(lab, n)+"1", "_srv."+Rep(lab, n)+"com")
+		}
+	}
 	fams = append(fams, List("lengths", lens))
 	fams = append(fams, List("bytesweep", ByteSweep([]string{
 		"ab.example.com", "a-b.c1", "_sip._tcp.example.com", "xn--e1afmkfd.com", "a.b",
